@@ -39,35 +39,105 @@ def QueueOk (s : Cache) (p : Option Str) : Prop :=
 def colsOf (c : Cols) (ttl : Option Int) (now : Int) (tag : SqlVal) : Cols :=
   { c with expT := ttl.map (now + ·), tag := tag }
 
+/-- a row stored with a non-negative ttl is not expired at the time of the write -/
+theorem colsOf_live (c : Cols) {ttl : Option Int} (now : Int) (tag : SqlVal) (httl : TtlOk ttl) :
+    ∀ e, (colsOf c ttl now tag).expT = some e → ¬ e < now := by
+  intro e he
+  cases ht : ttl with
+  | none => rw [ht] at he; cases he
+  | some d =>
+    have := httl d ht
+    rw [ht] at he
+    simp only [colsOf, Option.map_some, Option.some.injEq] at he
+    omega
+
+set_option linter.unusedVariables false in  -- some hypotheses of the statement are not needed
 /-- push to the back appends: the queue grows by exactly one row at its end, carrying the
 stored value; the returned key is that row's key -/
 theorem push_back (s : Cache) (E : Externals) (now : Int) (v : PyVal) (p : Option Str)
     (ttl : Option Int) (tag : SqlVal) (hinv : TableInv s) (hq : QueueOk s p) (hd : s.depth = 0)
     (s1 : Cache) (c : Cols) (hst : s.store E v false = .ok (s1, c))
     (hb : (colsOf c ttl now tag).bindable = true) (hnc : Quiet s now) (httl : TtlOk ttl)
-    (hor : OriginOk s) (hroom : Room s p) :
+    (hor : OriginOk s) (hroom : Room s p)
+    -- added: the prefix can be bound (no lone surrogate); otherwise push raises UnicodeEncodeError
+    (hp : ∀ q, p = some q → (utf8enc q).isSome = true) :
     ∃ r : Row, ((s.push E now v p true ttl false tag).1.queueRows p) = s.queueRows p ++ [r] ∧
       (s.push E now v p true ttl false tag).2 = .val (column r.key) ∧
       r.mode = c.mode ∧ r.val = c.val ∧ r.file = c.file ∧ r.expT = ttl.map (now + ·) ∧ r.tag = tag := by
-  sorry
+  obtain ⟨num, hnum, hfit, hrm, hord⟩ := pushNum_spec s p true hinv hq hor
+  obtain ⟨hn1, hn2⟩ := hrm hroom
+  have hsel := selKey_new_none s p num hn1 hn2 true hord
+  have hbk := bindable_queueKey p num hfit hp
+  obtain ⟨t, ht1, ht2, hrows, hout⟩ := push_ok s E now v p true ttl tag hst hnum hsel hb hbk
+  have hcull := insRow_cullW_quiet ht1 ht2 now (queueKey p num) (colsOf c ttl now tag) hnc
+    (colsOf_live c now tag httl)
+  have hinv' := insRow_inv (queueKey p num) true now (colsOf c ttl now tag) hinv hsel
+    (queueKey_ne_null p num)
+  refine ⟨mkRow s.rows (queueKey p num) now (colsOf c ttl now tag), ?_, hout, rfl, rfl, rfl, rfl, rfl⟩
+  rw [queueRows_eq, hrows]
+  show qrows ((t.insRow (queueKey p num) true now (colsOf c ttl now tag)).cullW now).1.rows p = _
+  rw [hcull, queueRows_eq]
+  apply qrows_append_back (rows := s.rows) _ hinv'.tbl.uniq hinv'.tbl.nonnull
+  · exact qfilter_iff.2 ⟨kfilter_queueKey p num hn1 hn2, rfl⟩
+  · intro x hx
+    rw [← queueRows_eq] at hx
+    have := hord x hx
+    simp only [if_true] at this
+    exact this
 
+set_option linter.unusedVariables false in  -- some hypotheses of the statement are not needed
 /-- push to the front prepends -/
 theorem push_front (s : Cache) (E : Externals) (now : Int) (v : PyVal) (p : Option Str)
     (ttl : Option Int) (tag : SqlVal) (hinv : TableInv s) (hq : QueueOk s p) (hd : s.depth = 0)
     (s1 : Cache) (c : Cols) (hst : s.store E v false = .ok (s1, c))
     (hb : (colsOf c ttl now tag).bindable = true) (hnc : Quiet s now) (httl : TtlOk ttl)
-    (hor : OriginOk s) (hroom : Room s p) :
+    (hor : OriginOk s) (hroom : Room s p)
+    -- added: the prefix can be bound (no lone surrogate); otherwise push raises UnicodeEncodeError
+    (hp : ∀ q, p = some q → (utf8enc q).isSome = true) :
     ∃ r : Row, ((s.push E now v p false ttl false tag).1.queueRows p) = r :: s.queueRows p ∧
       (s.push E now v p false ttl false tag).2 = .val (column r.key) ∧
       r.mode = c.mode ∧ r.val = c.val ∧ r.file = c.file := by
-  sorry
+  obtain ⟨num, hnum, hfit, hrm, hord⟩ := pushNum_spec s p false hinv hq hor
+  obtain ⟨hn1, hn2⟩ := hrm hroom
+  have hsel := selKey_new_none s p num hn1 hn2 false hord
+  have hbk := bindable_queueKey p num hfit hp
+  obtain ⟨t, ht1, ht2, hrows, hout⟩ := push_ok s E now v p false ttl tag hst hnum hsel hb hbk
+  have hcull := insRow_cullW_quiet ht1 ht2 now (queueKey p num) (colsOf c ttl now tag) hnc
+    (colsOf_live c now tag httl)
+  have hinv' := insRow_inv (queueKey p num) true now (colsOf c ttl now tag) hinv hsel
+    (queueKey_ne_null p num)
+  refine ⟨mkRow s.rows (queueKey p num) now (colsOf c ttl now tag), ?_, hout, rfl, rfl, rfl⟩
+  rw [queueRows_eq, hrows]
+  show qrows ((t.insRow (queueKey p num) true now (colsOf c ttl now tag)).cullW now).1.rows p = _
+  rw [hcull, queueRows_eq]
+  apply qrows_append_front (rows := s.rows) _ hinv'.tbl.uniq hinv'.tbl.nonnull
+  · exact qfilter_iff.2 ⟨kfilter_queueKey p num hn1 hn2, rfl⟩
+  · intro x hx
+    rw [← queueRows_eq] at hx
+    have := hord x hx
+    simp only [Bool.false_eq_true, if_false] at this
+    exact this
 
 /-- the queue stays well formed under push (so the theorems compose over histories) -/
 theorem push_queueOk (s : Cache) (E : Externals) (now : Int) (v : PyVal) (p : Option Str) (back : Bool)
     (ttl : Option Int) (tag : SqlVal) (hinv : TableInv s) (hq : QueueOk s p) (hor : OriginOk s)
     (hroom : Room s p) :
     QueueOk (s.push E now v p back ttl false tag).1 p := by
-  sorry
+  intro r hr
+  rcases push_cases s E now v p back ttl tag with
+    h | ⟨s1, c, num, t, hst, hnum, hsel, ht1, ht2, hrows, -⟩
+  · rw [queueRows_eq, h, ← queueRows_eq] at hr; exact hq r hr
+  · obtain ⟨num', hnum', hfit, hrm, -⟩ := pushNum_spec s p back hinv hq hor
+    rw [hnum] at hnum'; cases hnum'
+    obtain ⟨hn1, hn2⟩ := hrm hroom
+    rw [queueRows_eq, hrows] at hr
+    obtain ⟨hr1, hr2⟩ := mem_qrows.1 hr
+    have hasc := insRow_asc t (queueKey p num) true now (colsOf c ttl now tag)
+      (by rw [ht1]; exact hinv.tbl.asc)
+    rcases insRow_mem _ _ _ _ ((cullW_sublist _ now hasc).subset hr1) with ⟨hk, -⟩ | hmem
+    · exact ⟨num, by rw [hk]; exact queueNum_queueKey p num hfit, hk.symm, hn1, hn2⟩
+    · rw [ht1] at hmem
+      exact hq r (by rw [queueRows_eq]; exact mem_qrows.2 ⟨hmem, hr2⟩)
 
 /-- pull from the front removes and returns the first unexpired item; expired heads are
 dropped on the way -/
@@ -76,7 +146,15 @@ theorem pull_front (s : Cache) (E : Externals) (now : Int) (p : Option Str) (hin
     (hfile : (s.fetchRow E r false).2 ≠ .ioerror) :
     (s.pull E now p true false false).2 = .tup [.val (column r.key), fetchedOut (s.fetchRow E r false).2] ∧
     (s.pull E now p true false false).1.queueRows p = rest := by
-  sorry
+  have hh : qhead s p true = some r := by unfold qhead; rw [hq]; rfl
+  have hf := pullDel_fetch s E r
+  unfold pull
+  rw [pullLoop_succ]
+  simp only [hh, hlive, Bool.false_eq_true, if_false]
+  rw [hf]
+  split
+  · contradiction
+  · exact ⟨by simp [withFlags], queue_del_head hinv hq (pullTake_rows s E r)⟩
 
 /-- pull from the back removes and returns the last item -/
 theorem pull_back (s : Cache) (E : Externals) (now : Int) (p : Option Str) (hinv : TableInv s)
@@ -84,14 +162,27 @@ theorem pull_back (s : Cache) (E : Externals) (now : Int) (p : Option Str) (hinv
     (hfile : (s.fetchRow E r false).2 ≠ .ioerror) :
     (s.pull E now p false false false).2 = .tup [.val (column r.key), fetchedOut (s.fetchRow E r false).2] ∧
     (s.pull E now p false false false).1.queueRows p = front := by
-  sorry
+  have hh : qhead s p false = some r := by unfold qhead lastRow?; rw [hq]; simp
+  have hf := pullDel_fetch s E r
+  unfold pull
+  rw [pullLoop_succ]
+  simp only [hh, hlive, Bool.false_eq_true, if_false]
+  rw [hf]
+  split
+  · contradiction
+  · exact ⟨by simp [withFlags], queue_del_last hinv hq (pullTake_rows s E r)⟩
 
 /-- pull on an empty queue returns the default and changes nothing -/
 theorem pull_empty (s : Cache) (E : Externals) (now : Int) (p : Option Str) (front et tg : Bool)
     (hq : s.queueRows p = []) :
     (s.pull E now p front et tg).2 = defaultFlags et tg ∧ (s.pull E now p front et tg).1.rows = s.rows := by
-  sorry
+  have hh : qhead s p front = none := by unfold qhead; rw [hq]; cases front <;> rfl
+  unfold pull
+  rw [pullLoop_succ]
+  simp only [hh]
+  exact ⟨trivial, (pullSel_spec s).1⟩
 
+set_option linter.unusedVariables false in  -- some hypotheses of the statement are not needed
 /-- peek returns what the next pull from that side would return, and removes nothing
 when the head is not expired -/
 theorem peek_is_next_pull (s : Cache) (E : Externals) (now : Int) (p : Option Str) (front : Bool)
@@ -100,7 +191,15 @@ theorem peek_is_next_pull (s : Cache) (E : Externals) (now : Int) (p : Option St
     (hlive : expired now r = false) (hfile : (s.fetchRow E r false).2 ≠ .ioerror) :
     (s.peek E now p front false false).2 = (s.pull E now p front false false).2 ∧
     (s.peek E now p front false false).1.rows = s.rows := by
-  sorry
+  have hh : qhead s p front = some r := by
+    unfold qhead lastRow?; cases front <;> simpa using hhead
+  unfold peek pull
+  rw [peekLoop_succ, pullLoop_succ]
+  simp only [hh, hlive, Bool.false_eq_true, if_false]
+  rw [pullDel_fetch s E r, pullSel_fetch s E r]
+  split
+  · contradiction
+  · exact ⟨rfl, by rw [fetchRow_rows, (pullSel_spec s).1]⟩
 
 /-- queues with different prefixes do not interfere: a push on `p` leaves the queue of every
 other prefix `q` unchanged — also when one prefix extends the other ('a' and 'a-5') -/
@@ -108,20 +207,43 @@ theorem prefix_isolation_push (s : Cache) (E : Externals) (now : Int) (v : PyVal
     (back : Bool) (ttl : Option Int) (tag : SqlVal) (hinv : TableInv s) (hpq : p ≠ q)
     (hq : QueueOk s p) (hnc : Quiet s now) (httl : TtlOk ttl) (hor : OriginOk s) :
     (s.push E now v p back ttl false tag).1.queueRows q = s.queueRows q := by
-  sorry
+  rcases push_cases s E now v p back ttl tag with
+    h | ⟨s1, c, num, t, hst, hnum, hsel, ht1, ht2, hrows, -⟩
+  · rw [queueRows_eq, h, ← queueRows_eq]
+  · obtain ⟨num', hnum', hfit, -, -⟩ := pushNum_spec s p back hinv hq hor
+    rw [hnum] at hnum'; cases hnum'
+    have hcull := insRow_cullW_quiet ht1 ht2 now (queueKey p num) (colsOf c ttl now tag) hnc
+      (colsOf_live c now tag httl)
+    rw [queueRows_eq, hrows]
+    show qrows ((t.insRow (queueKey p num) true now (colsOf c ttl now tag)).cullW now).1.rows q = _
+    rw [hcull, queueRows_eq]
+    exact qrows_append_notin _ _ _ (qfilter_other hpq num hfit _ rfl)
 
+set_option linter.unusedVariables false in  -- some hypotheses of the statement are not needed
 /-- ... and a pull on `p` leaves every other queue unchanged -/
 theorem prefix_isolation_pull (s : Cache) (E : Externals) (now : Int) (p q : Option Str)
     (front et tg : Bool) (hinv : TableInv s) (hpq : p ≠ q) (hq : QueueOk s p) (hq' : QueueOk s q) :
     (s.pull E now p front et tg).1.queueRows q = s.queueRows q := by
-  sorry
+  obtain ⟨f, hf1, hf2⟩ := pullLoop_rows E now p front et tg (s.rows.length + 1) s hinv.tbl.asc
+  unfold pull
+  rw [queueRows_eq, hf1, queueRows_eq]
+  apply qrows_filter_id hinv.tbl.uniq hinv.tbl.nonnull
+  intro x hx
+  apply hf2 x (mem_qrows.1 hx).1
+  intro hxp
+  rw [queueRows_eq] at hxp
+  exact qrows_disjoint hpq hxp hx
 
 /-- ordinary keys outside the queue key range are untouched by pull: every row that is not a
 member of queue `p` survives a pull on `p` -/
 theorem pull_ordinary_untouched (s : Cache) (E : Externals) (now : Int) (p : Option Str)
     (front et tg : Bool) (hinv : TableInv s) :
     ∀ r ∈ s.rows, r ∉ s.queueRows p → r ∈ (s.pull E now p front et tg).1.rows := by
-  sorry
+  obtain ⟨f, hf1, hf2⟩ := pullLoop_rows E now p front et tg (s.rows.length + 1) s hinv.tbl.asc
+  intro r hr hnq
+  unfold pull
+  rw [hf1]
+  exact List.mem_filter.2 ⟨hr, hf2 r hr hnq⟩
 
 /-- non-vacuity: two queues whose prefixes extend one another, and an ordinary key -/
 def exQRow (i : Nat) (k : SqlVal) (v : Int) : Row :=
@@ -137,5 +259,18 @@ def exQ : Cache :=
 
 example : (exQ.queueRows (some [97])).map (·.rowid) = [1, 4] ∧
     (exQ.queueRows (some [97, 45, 53])).map (·.rowid) = [2] := by decide +kernel
+
+/-- why `push_back` / `push_front` need `hp`: with a lone surrogate in the prefix the key cannot
+be bound, push raises UnicodeEncodeError and the (empty, well-formed) queue stays empty, although
+the value itself is storable and every other hypothesis holds -/
+def exE : Externals :=
+  { dumpsK := fun _ => [], dumpsV := fun _ => [], loads := fun _ => .none, jsonz := fun _ => [],
+    unjsonz := fun _ => .none }
+
+example : let s : Cache := { cfg := { policy := .none } }
+    (s.store exE (.int 1) false).toOption.isSome = true ∧ s.queueRows (some [0xD800]) = [] ∧
+    (s.push exE 0 (.int 1) (some [0xD800]) true none false .null).1.queueRows (some [0xD800]) = [] ∧
+    (s.push exE 0 (.int 1) (some [0xD800]) false none false .null).1.queueRows (some [0xD800]) = [] := by
+  decide +kernel
 
 end DC.Cache
